@@ -52,21 +52,29 @@ impl<'a> RegExp<'a> {
 
             if config.is_verbose_mode_enabled {
                 // Remove line breaks before checking matches, otherwise check will be incorrect.
-                regex = Self::compile(&regex.to_string().replace('\n', ""), config);
+                regex =
+                    regex.and_then(|it| Self::compile(&it.to_string().replace('\n', ""), config));
             }
 
-            if !Self::is_each_test_case_matched_after_rotating_alternations(
-                &regex, &mut ast, test_cases,
-            ) {
+            // An expression which is too big to be compiled cannot be checked,
+            // so it is treated like an expression which does not pass the check.
+            let is_check_passed = regex.is_some_and(|it| {
+                Self::is_each_test_case_matched_after_rotating_alternations(
+                    &it, &mut ast, test_cases,
+                )
+            });
+
+            if !is_check_passed {
                 dfa = Dfa::from(&grapheme_clusters, false, config);
                 ast = Expression::from(dfa, config);
                 #[cfg(grex_verif)]
                 crate::verif_hooks::record(|| {
                     crate::verif_hooks::Event::Expression(ast.to_string())
                 });
-                regex = Self::convert_expr_to_regex(&ast, config);
+                let is_check_passed = Self::convert_expr_to_regex(&ast, config)
+                    .is_some_and(|it| Self::regex_matches_all_test_cases(&it, test_cases));
 
-                if !Self::regex_matches_all_test_cases(&regex, test_cases) {
+                if !is_check_passed {
                     // Longer test cases must be tried first, otherwise a shorter
                     // test case being a prefix of a longer one would win the search.
                     let mut exprs = grapheme_clusters
@@ -123,7 +131,7 @@ impl<'a> RegExp<'a> {
                 .is_ok_and(|regex| regex.is_match(test_case))
     }
 
-    fn convert_expr_to_regex(expr: &Expression, config: &RegExpConfig) -> Regex {
+    fn convert_expr_to_regex(expr: &Expression, config: &RegExpConfig) -> Option<Regex> {
         let mut regex_str = expr.to_string();
 
         if config.is_output_colorized {
@@ -149,13 +157,14 @@ impl<'a> RegExp<'a> {
         Self::compile(&regex_str, config)
     }
 
-    fn compile(regex_str: &str, config: &RegExpConfig) -> Regex {
+    fn compile(regex_str: &str, config: &RegExpConfig) -> Option<Regex> {
         // The flag is not part of the expression itself but the test cases
         // must be checked against the regular expression as it is finally used.
+        // Returns None if the expression exceeds the size limit of the regex crate.
         RegexBuilder::new(regex_str)
             .case_insensitive(config.is_case_insensitive_matching)
             .build()
-            .unwrap()
+            .ok()
     }
 
     fn regex_matches_all_test_cases(regex: &Regex, test_cases: &[String]) -> bool {
